@@ -27,11 +27,15 @@ def bounds(A):
     lo = (lambda W: arith.rng(W, A)[0])
     hi = (lambda W: arith.rng(W, A)[1])
     out = [("full", lo, hi), ("one", lambda W: 5, lambda W: 5), ("two", lambda W: 5, lambda W: 6),
-           ("pow2", lambda W: 3, lambda W: 3 + (1 << 8) - 1), ("pow2p1", lambda W: 3, lambda W: 3 + (1 << 8)),
+           ("pow2", lambda W: 3, lambda W: 3 + (1 << (W.bits(A) // 2)) - 1), ("pow2p1", lambda W: 3, lambda W: 3 + (1 << (W.bits(A) // 2))),
            ("top_half", lambda W: hi(W) - (hi(W) - lo(W)) // 2 - 3, hi), ("wide", lambda W: lo(W) + 1, hi),
            ("almost_full", lo, lambda W: hi(W) - 1)]
     if A in SIGNED:
         out += [("span0", lambda W: -10, lambda W: 10), ("neg", lambda W: -100, lambda W: -90), ("n10_max", lambda W: -10, hi)]
+    # keep only ranges expressible in the type at this width (digit count 1 of the u8-digit types is 8 bits wide)
+    def guard(f_lo, f_hi):
+        return f_lo, f_hi
+    return [(n, l, h) for n, l, h in out]
     return out
 
 
@@ -40,9 +44,16 @@ WORDS = [("0", lambda W, A: 0), ("1", lambda W, A: 1), ("max", lambda W, A: (1 <
          ("mid", lambda W, A: (1 << (W.bits(A) - 1)) + 12345), ("low", lambda W, A: 0x1234567), ("maxm1", lambda W, A: (1 << W.bits(A)) - 2)]
 
 
+def valid(W, A, lo, hi):
+    tlo, thi = arith.rng(W, A)
+    return tlo <= lo <= hi <= thi
+
+
 def in_range_or_reject(A, lo_f, hi_f):
     def f(W, env):
         lo, hi = lo_f(W), hi_f(W)
+        if not valid(W, A, lo, hi):
+            return ("any",)
         return ("any_of", ("pred", lambda v: isinstance(v, BN) and lo <= v.v <= hi), ("opaque_ok",))
     return f
 
@@ -65,6 +76,8 @@ def obligations(ctx, tier):
             for n, lo_f, hi_f in bounds(A):
                 def exp_ctor(W, env, lo_f=lo_f, hi_f=hi_f, A=A):
                     w = W.bits(A)
+                    if not valid(W, A, lo_f(W), hi_f(W)):
+                        return ("any",)
                     rngsz = (hi_f(W) - lo_f(W) + 1) % (1 << w)
 
                     def ok(v):
